@@ -426,3 +426,198 @@ pub fn signature_of(fs: &[&fol::Formula]) -> (Signature, Vec<ir::Fm>) {
     let refs: Vec<&ir::Fm> = lowered.iter().collect();
     (Signature::of(&refs), lowered)
 }
+
+// ---------------------------------------------------------------------------------------
+// formulas for the exact evaluator: quantifiers are mostly guarded so that verdicts are definite
+
+fn gterm_of(v: &fol::Variable) -> fol::GeneralTerm {
+    match v.sort {
+        fol::Sort::General => fol::GeneralTerm::Variable(v.name.clone()),
+        fol::Sort::Integer => fol::GeneralTerm::IntegerTerm(fol::IntegerTerm::Variable(v.name.clone())),
+        fol::Sort::Symbol => fol::GeneralTerm::SymbolicTerm(fol::SymbolicTerm::Variable(v.name.clone())),
+    }
+}
+
+pub fn cmp(l: fol::GeneralTerm, guards: Vec<(fol::Relation, fol::GeneralTerm)>) -> fol::Formula {
+    fol::Formula::AtomicFormula(fol::AtomicFormula::Comparison(fol::Comparison {
+        term: l,
+        guards: guards
+            .into_iter()
+            .map(|(relation, term)| fol::Guard { relation, term })
+            .collect(),
+    }))
+}
+
+pub fn num_term(n: isize) -> fol::GeneralTerm {
+    fol::GeneralTerm::IntegerTerm(fol::IntegerTerm::Numeral(n))
+}
+
+/// a guard that bounds `v`: an atom with v as an argument, `v = t`, `t = v`, or `lo <= v <= hi`
+pub fn guard_for(v: &fol::Variable, cfg: &FolCfg) -> BoxedStrategy<fol::Formula> {
+    let vt = gterm_of(v);
+    let preds: Vec<(String, usize)> = cfg.preds.iter().filter(|p| p.1 > 0).cloned().collect();
+    let cfg2 = cfg.clone();
+    let vt1 = vt.clone();
+    let atom_guard = (select(preds), any::<u8>())
+        .prop_flat_map(move |((name, arity), pos)| {
+            let vt = vt1.clone();
+            let pos = pos as usize % arity;
+            vec(gen_term(&cfg2), arity).prop_map(move |mut terms| {
+                terms[pos] = vt.clone();
+                fol::Formula::AtomicFormula(fol::AtomicFormula::Atom(fol::Atom {
+                    predicate_symbol: name.clone(),
+                    terms,
+                }))
+            })
+        })
+        .boxed();
+    let value: BoxedStrategy<fol::GeneralTerm> = match v.sort {
+        fol::Sort::General => gen_term(cfg),
+        // an integer variable is also compared with general variables (`I$i = Z`), the shape
+        // the translators produce and the quantifier-domain rewrites look for
+        fol::Sort::Integer => {
+            if cfg.gvars.is_empty() {
+                int_term(cfg).prop_map(fol::GeneralTerm::IntegerTerm).boxed()
+            } else {
+                prop_oneof![
+                    3 => int_term(cfg).prop_map(fol::GeneralTerm::IntegerTerm),
+                    2 => select(cfg.gvars.clone()).prop_map(fol::GeneralTerm::Variable),
+                ]
+                .boxed()
+            }
+        }
+        fol::Sort::Symbol => sym_term(cfg).prop_map(fol::GeneralTerm::SymbolicTerm).boxed(),
+    };
+    let vt2 = vt.clone();
+    let eq_guard = (value, any::<bool>())
+        .prop_map(move |(t, flip)| {
+            if flip {
+                cmp(t, vec![(fol::Relation::Equal, vt2.clone())])
+            } else {
+                cmp(vt2.clone(), vec![(fol::Relation::Equal, t)])
+            }
+        })
+        .boxed();
+    if v.sort == fol::Sort::Symbol {
+        return prop_oneof![3 => atom_guard, 2 => eq_guard].boxed();
+    }
+    let vt3 = vt.clone();
+    let (lo, hi) = (cfg.num_lo, cfg.num_hi);
+    let range_guard = (lo..=hi, 0isize..4, any::<bool>())
+        .prop_map(move |(a, w, chain)| {
+            if chain {
+                cmp(
+                    num_term(a),
+                    vec![
+                        (fol::Relation::LessEqual, vt3.clone()),
+                        (fol::Relation::LessEqual, num_term(a + w)),
+                    ],
+                )
+            } else {
+                bin(
+                    fol::BinaryConnective::Conjunction,
+                    cmp(vt3.clone(), vec![(fol::Relation::GreaterEqual, num_term(a))]),
+                    cmp(vt3.clone(), vec![(fol::Relation::Less, num_term(a + w))]),
+                )
+            }
+        })
+        .boxed();
+    prop_oneof![4 => atom_guard, 3 => eq_guard, 2 => range_guard].boxed()
+}
+
+fn conj_all(mut parts: Vec<fol::Formula>, left_nested: bool) -> fol::Formula {
+    if left_nested {
+        fol::Formula::conjoin(parts)
+    } else {
+        let mut acc = parts.pop().unwrap();
+        while let Some(p) = parts.pop() {
+            acc = bin(fol::BinaryConnective::Conjunction, p, acc);
+        }
+        acc
+    }
+}
+
+/// formulas whose quantifiers are guarded with probability ~0.75
+pub fn guarded_formula(cfg: &FolCfg) -> BoxedStrategy<fol::Formula> {
+    let cfg2 = cfg.clone();
+    atomic(cfg)
+        .prop_recursive(cfg.depth, 24, 3, move |inner| {
+            let cfg3 = cfg2.clone();
+            let guarded = (any::<bool>(), vec(variable(&cfg2), 1..=3), inner.clone(), any::<bool>(), any::<bool>())
+                .prop_flat_map(move |(forall, vars, body, left, dup)| {
+                    let guards: Vec<BoxedStrategy<fol::Formula>> = vars.iter().map(|v| guard_for(v, &cfg3)).collect();
+                    (Just(forall), Just(vars), guards, Just(body), Just(left), Just(dup))
+                })
+                .prop_map(|(forall, vars, guards, body, left, dup)| {
+                    let mut parts = guards;
+                    if dup {
+                        // duplicated conjunct
+                        let first = parts[0].clone();
+                        parts.push(first);
+                    }
+                    if forall {
+                        let g = conj_all(parts, left);
+                        quant(true, vars, bin(fol::BinaryConnective::Implication, g, body))
+                    } else {
+                        parts.push(body);
+                        quant(false, vars, conj_all(parts, left))
+                    }
+                });
+            // the shape the quantifier-domain rewrite looks for: an outer general variable equated
+            // with an inner integer variable, where the inner block may re-bind the outer variable
+            let gv = cfg2.gvars.clone();
+            let iv = cfg2.ivars.clone();
+            let domain_shape = (
+                (select(gv), select(iv), any::<bool>(), any::<bool>()),
+                (any::<bool>(), any::<bool>(), any::<bool>()),
+                inner.clone(),
+                inner.clone(),
+            )
+                .prop_map(|((z, i, forall, flip), (rebind, extra_outer, left), rest, other)| {
+                    let zv = fol::Variable { name: z.clone(), sort: fol::Sort::General };
+                    let ivar = fol::Variable { name: i.clone(), sort: fol::Sort::Integer };
+                    let eq = if flip {
+                        cmp(gterm_of(&zv), vec![(fol::Relation::Equal, gterm_of(&ivar))])
+                    } else {
+                        cmp(gterm_of(&ivar), vec![(fol::Relation::Equal, gterm_of(&zv))])
+                    };
+                    let mut inner_vars = vec![ivar.clone()];
+                    if rebind {
+                        inner_vars.insert(0, zv.clone());
+                    }
+                    let inner_body = if left {
+                        bin(fol::BinaryConnective::Conjunction, eq, rest)
+                    } else {
+                        bin(fol::BinaryConnective::Conjunction, rest, eq)
+                    };
+                    let inner_q = quant(false, inner_vars, inner_body);
+                    let mut outer_vars = vec![zv];
+                    if extra_outer {
+                        outer_vars.push(fol::Variable { name: "Y".into(), sort: fol::Sort::General });
+                    }
+                    if forall {
+                        quant(true, outer_vars, bin(fol::BinaryConnective::Implication, inner_q, other))
+                    } else {
+                        quant(false, outer_vars, bin(fol::BinaryConnective::Conjunction, inner_q, other))
+                    }
+                });
+            let equivalence_shape = (inner.clone(), inner.clone())
+                .prop_map(|(f, g)| {
+                    bin(
+                        fol::BinaryConnective::Conjunction,
+                        bin(fol::BinaryConnective::Implication, f.clone(), g.clone()),
+                        bin(fol::BinaryConnective::Implication, g, f),
+                    )
+                });
+            prop_oneof![
+                2 => inner.clone().prop_map(not),
+                5 => (connective(), inner.clone(), inner.clone()).prop_map(|(c, l, r)| bin(c, l, r)),
+                4 => guarded,
+                1 => domain_shape,
+                1 => equivalence_shape,
+                1 => (any::<bool>(), vec(variable(&cfg2), 1..=2), inner)
+                    .prop_map(|(fa, vs, f)| quant(fa, vs, f)),
+            ]
+        })
+        .boxed()
+}
